@@ -12,55 +12,76 @@ import (
 // list or -1}. Creators are relabelled randomly per case; keys, payloads and
 // timestamps are fresh.
 
-// shapeLongElections: found by the layered workload search (findshape.go,
-// `vcheck findshape <seed> <n> layered`, seeds 3, 9 and 14) on the repaired
-// tree: uneven gossip splits the votes on an early witness two/two, then one
-// yes/three no; in the round right before the coin round exactly one witness
-// can decide ("not famous") and nobody else descends from it; its creator is
-// then not heard while the others pass the coin round and one more round;
-// then everybody gossips in a ring. (4 validators, 109-119 events.) A node that
+// shapeLongElections: uneven gossip splits the votes on an early witness
+// two/two, then one yes/three no; in the round right before the coin round
+// exactly one witness can decide ("not famous") and nobody else descends from
+// it; its creator is then not heard while the others pass the coin round and
+// one more round; then everybody gossips in a ring. (4 validators.) A node that
 // learns the history from one of the others first goes through the coin round
-// without knowing the decider. The first corpus entry of this kind was taken
-// from a seeded change's demonstration and went stale when 5a7d6d8 changed
-// which events strongly see which; these are re-derived from the criterion,
-// and a case reports (counter dag_shape_without_partial_decision) when a shape
-// no longer shows it.
+// without knowing the decider. Entries 0-2 were found by the layered workload
+// search (findshape.go, `FINDSHAPE_PRINT=1 vcheck findshape <seed> 1 layered`,
+// seeds 6, 13 and 61) on the current tree; entry 3 is the schedule of a seeded
+// change's demonstration. Which events strongly see which is what these
+// shapes depend on: a case reports (counter dag_shape_without_partial_decision)
+// when a shape no longer shows a partial decision before a coin round, as
+// happened while 5a7d6d8 was in the tree.
 var shapeLongElections = [][][2]int{
 	{
-		{0, -1}, {1, -1}, {2, -1}, {3, -1}, {0, 2}, {0, 3}, {2, 3}, {0, 3}, {3, 0}, {2, 1}, {2, 8}, {0, 3},
-		{2, 1}, {0, 12}, {0, 8}, {2, 11}, {2, 13}, {0, 16}, {2, 8}, {2, 8}, {2, 1}, {3, 20}, {1, 17}, {2, 21},
-		{0, 21}, {1, 24}, {0, 1}, {2, 26}, {3, 27}, {2, 26}, {0, 25}, {0, 28}, {1, 23}, {1, 20}, {1, 28}, {3, 34},
-		{2, 21}, {2, 31}, {1, 31}, {0, 37}, {2, 21}, {2, 26}, {2, 35}, {3, 31}, {2, 38}, {1, 43}, {2, 45}, {0, 45},
-		{1, 46}, {0, 42}, {0, 21}, {0, 48}, {1, 43}, {1, 43}, {0, 43}, {3, 54}, {2, 51}, {1, 55}, {2, 54}, {0, 58},
-		{0, 58}, {0, 55}, {1, 58}, {1, 61}, {3, 58}, {2, 64}, {0, 65}, {0, 65}, {3, 61}, {1, 65}, {0, 65}, {0, 65},
-		{1, 71}, {1, 68}, {3, 71}, {2, 74}, {3, 75}, {2, 71}, {0, 76}, {1, 77}, {1, 76}, {1, 77}, {3, 78}, {0, 77},
-		{0, 77}, {0, 77}, {3, 85}, {0, 86}, {1, 87}, {2, 88}, {3, 89}, {0, 90}, {1, 91}, {2, 92}, {3, 93}, {0, 94},
-		{1, 95}, {2, 96}, {3, 97}, {0, 98}, {1, 99}, {2, 100}, {3, 101}, {0, 102}, {1, 103}, {2, 104}, {3, 105}, {0, 106},
-		{1, 107}, {2, 108}, {3, 109}, {0, 110}, {1, 111}, {2, 112}, {3, 113}, {0, 114},
+		{0, -1}, {1, -1}, {2, -1}, {3, -1}, {0, 3}, {0, 2}, {3, 4}, {2, 3}, {2, 3}, {1, 6}, {2, 3}, {2, 9},
+		{3, 1}, {1, 12}, {2, 1}, {3, 1}, {0, 15}, {0, 14}, {2, 15}, {2, 13}, {1, 17}, {3, 5}, {3, 20}, {1, 22},
+		{1, 21}, {0, 23}, {0, 24}, {0, 24}, {2, 21}, {1, 28}, {3, 23}, {0, 21}, {2, 25}, {0, 23}, {2, 23}, {2, 24},
+		{0, 29}, {1, 36}, {2, 36}, {1, 31}, {1, 30}, {2, 21}, {3, 31}, {1, 42}, {0, 43}, {1, 21}, {2, 45}, {2, 42},
+		{2, 42}, {3, 41}, {0, 48}, {3, 46}, {1, 51}, {2, 50}, {2, 30}, {0, 52}, {3, 55}, {0, 56}, {0, 56}, {0, 48},
+		{0, 45}, {3, 60}, {3, 43}, {1, 61}, {0, 63}, {2, 61}, {0, 52}, {1, 62}, {0, 53}, {1, 68}, {0, 48}, {0, 54},
+		{3, 71}, {1, 65}, {3, 73}, {1, 71}, {0, 65}, {0, 65}, {0, 69}, {3, 65}, {0, 75}, {1, 80}, {1, 80}, {1, 80},
+		{1, 80}, {3, 80}, {0, 84}, {1, 86}, {2, 87}, {3, 87}, {0, 87}, {1, 88}, {2, 90}, {1, 54}, {1, 92}, {0, 94},
+		{0, 91}, {1, 92}, {3, 92}, {2, 96}, {1, 99}, {3, 100}, {0, 101}, {1, 102}, {2, 103}, {3, 104}, {0, 105}, {1, 106},
+		{2, 107}, {3, 108}, {0, 109}, {1, 110}, {2, 111}, {3, 112}, {0, 113}, {1, 114}, {2, 115}, {3, 116}, {0, 117}, {1, 118},
+		{2, 119}, {3, 120}, {0, 121}, {1, 122}, {2, 123}, {3, 124}, {0, 125}, {1, 126}, {2, 127}, {3, 128}, {0, 129},
 	},
 	{
-		{0, -1}, {1, -1}, {2, -1}, {3, -1}, {3, 2}, {1, 2}, {1, 4}, {1, 0}, {0, 7}, {2, 7}, {3, 7}, {3, 9},
-		{0, 1}, {1, 12}, {0, 9}, {3, 8}, {1, 14}, {1, 8}, {3, 7}, {1, 10}, {3, 2}, {3, 9}, {0, 19}, {2, 22},
-		{2, 18}, {3, 24}, {1, 23}, {2, 12}, {3, 23}, {0, 27}, {2, 22}, {2, 29}, {0, 16}, {0, 26}, {3, 33}, {1, 25},
-		{0, 35}, {2, 28}, {3, 37}, {0, 35}, {1, 31}, {0, 34}, {2, 38}, {3, 41}, {0, 19}, {1, 43}, {1, 28}, {3, 46},
-		{0, 46}, {2, 47}, {1, 49}, {3, 46}, {3, 44}, {3, 49}, {1, 49}, {2, 39}, {0, 53}, {1, 53}, {0, 55}, {2, 53},
-		{2, 51}, {2, 57}, {3, 61}, {0, 61}, {1, 62}, {2, 64}, {2, 50}, {3, 64}, {1, 67}, {0, 68}, {0, 66}, {0, 66},
-		{1, 66}, {2, 72}, {2, 57}, {1, 74}, {3, 75}, {0, 74}, {2, 76}, {3, 75}, {0, 79}, {1, 80}, {2, 81}, {3, 82},
-		{0, 83}, {1, 84}, {2, 85}, {3, 86}, {0, 87}, {1, 88}, {2, 89}, {3, 90}, {0, 91}, {1, 92}, {2, 93}, {3, 94},
-		{0, 95}, {1, 96}, {2, 97}, {3, 98}, {0, 99}, {1, 100}, {2, 101}, {3, 102}, {0, 103}, {1, 104}, {2, 105}, {3, 106},
-		{0, 107},
+		{0, -1}, {1, -1}, {2, -1}, {3, -1}, {2, 0}, {1, 2}, {2, 0}, {1, 6}, {1, 0}, {2, 3}, {1, 3}, {2, 0},
+		{1, 3}, {0, 11}, {1, 13}, {0, 3}, {1, 3}, {2, 10}, {0, 3}, {0, 3}, {1, 3}, {0, 3}, {3, 21}, {3, 21},
+		{1, 21}, {2, 18}, {0, 17}, {3, 16}, {0, 25}, {0, 24}, {3, 16}, {3, 25}, {2, 24}, {2, 27}, {1, 29}, {2, 34},
+		{1, 35}, {0, 30}, {0, 32}, {0, 36}, {0, 33}, {0, 23}, {2, 41}, {2, 34}, {3, 39}, {1, 43}, {2, 24}, {0, 46},
+		{0, 45}, {0, 27}, {3, 45}, {2, 24}, {3, 51}, {3, 45}, {1, 51}, {0, 51}, {3, 51}, {1, 55}, {2, 52}, {0, 56},
+		{3, 59}, {2, 49}, {1, 61}, {0, 62}, {3, 61}, {2, 60}, {2, 57}, {2, 62}, {1, 64}, {0, 60}, {2, 63}, {3, 63},
+		{2, 69}, {2, 55}, {0, 54}, {0, 73}, {2, 75}, {3, 69}, {1, 77}, {3, 76}, {3, 75}, {1, 75}, {0, 76}, {3, 78},
+		{2, 81}, {3, 68}, {3, 73}, {0, 83}, {3, 87}, {3, 87}, {3, 81}, {2, 81}, {2, 90}, {0, 90}, {3, 82}, {0, 94},
+		{2, 95}, {1, 95}, {2, 97}, {3, 95}, {2, 99}, {1, 93}, {3, 95}, {1, 102}, {1, 95}, {0, 104}, {3, 104}, {3, 105},
+		{1, 107}, {1, 105}, {0, 109}, {3, 110}, {2, 111}, {3, 110}, {2, 113}, {3, 109}, {0, 115}, {1, 116}, {2, 117}, {3, 118},
+		{0, 119}, {1, 120}, {2, 121}, {3, 122}, {0, 123}, {1, 124}, {2, 125}, {3, 126}, {0, 127}, {1, 128}, {2, 129}, {3, 130},
+		{0, 131}, {1, 132}, {2, 133}, {3, 134}, {0, 135}, {1, 136}, {2, 137}, {3, 138}, {0, 139}, {1, 140}, {2, 141}, {3, 142},
+		{0, 143},
 	},
 	{
-		{0, -1}, {1, -1}, {2, -1}, {3, -1}, {0, 2}, {1, 2}, {0, 2}, {1, 3}, {3, 7}, {3, 2}, {0, 2}, {2, 5},
-		{2, 9}, {3, 12}, {1, 12}, {3, 14}, {2, 9}, {2, 15}, {0, 9}, {3, 14}, {1, 19}, {1, 19}, {2, 21}, {0, 21},
-		{3, 22}, {1, 6}, {3, 25}, {1, 23}, {1, 18}, {2, 18}, {3, 23}, {1, 29}, {3, 6}, {1, 29}, {0, 27}, {2, 23},
-		{2, 26}, {1, 36}, {3, 18}, {1, 32}, {2, 39}, {1, 18}, {3, 37}, {3, 40}, {0, 40}, {1, 32}, {0, 41}, {2, 41},
-		{3, 36}, {1, 47}, {1, 46}, {3, 50}, {0, 51}, {0, 50}, {0, 40}, {1, 51}, {2, 54}, {2, 54}, {1, 51}, {2, 58},
-		{1, 53}, {3, 60}, {2, 61}, {3, 60}, {3, 54}, {0, 60}, {2, 65}, {3, 65}, {2, 60}, {0, 67}, {1, 69}, {1, 69},
-		{2, 67}, {3, 69}, {1, 69}, {2, 73}, {2, 74}, {2, 73}, {0, 74}, {0, 73}, {0, 60}, {2, 73}, {3, 74}, {2, 82},
-		{1, 80}, {3, 80}, {0, 84}, {0, 84}, {1, 85}, {3, 87}, {0, 89}, {1, 90}, {2, 91}, {3, 92}, {0, 93}, {1, 94},
-		{2, 95}, {3, 96}, {0, 97}, {1, 98}, {2, 99}, {3, 100}, {0, 101}, {1, 102}, {2, 103}, {3, 104}, {0, 105}, {1, 106},
-		{2, 107}, {3, 108}, {0, 109}, {1, 110}, {2, 111}, {3, 112}, {0, 113}, {1, 114}, {2, 115}, {3, 116}, {0, 117},
+		{0, -1}, {1, -1}, {2, -1}, {3, -1}, {2, 3}, {1, 2}, {3, 4}, {2, 6}, {1, 6}, {2, 8}, {0, 9}, {1, 10},
+		{0, 6}, {0, 6}, {0, 11}, {1, 14}, {0, 6}, {3, 9}, {2, 15}, {2, 17}, {0, 3}, {3, 14}, {2, 20}, {2, 17},
+		{2, 5}, {1, 17}, {2, 16}, {2, 20}, {3, 25}, {1, 14}, {2, 20}, {3, 20}, {3, 15}, {1, 32}, {3, 30}, {3, 20},
+		{1, 14}, {0, 36}, {2, 29}, {3, 36}, {1, 20}, {1, 37}, {2, 39}, {1, 35}, {0, 41}, {1, 27}, {3, 38}, {2, 45},
+		{0, 42}, {1, 46}, {1, 46}, {2, 37}, {1, 37}, {0, 51}, {3, 51}, {3, 38}, {0, 42}, {1, 56}, {2, 56}, {1, 48},
+		{2, 48}, {3, 44}, {0, 57}, {1, 55}, {1, 58}, {2, 62}, {0, 65}, {0, 57}, {1, 67}, {3, 68}, {1, 66}, {2, 69},
+		{1, 60}, {0, 70}, {0, 69}, {3, 72}, {2, 75}, {2, 75}, {0, 72}, {1, 77}, {1, 75}, {3, 80}, {0, 80}, {0, 81},
+		{0, 80}, {2, 80}, {2, 81}, {2, 80}, {1, 87}, {0, 88}, {2, 81}, {2, 81}, {2, 88}, {3, 92}, {1, 93}, {1, 92},
+		{3, 95}, {0, 96}, {1, 97}, {2, 98}, {3, 99}, {0, 100}, {1, 101}, {2, 102}, {3, 103}, {0, 104}, {1, 105}, {2, 106},
+		{3, 107}, {0, 108}, {1, 109}, {2, 110}, {3, 111}, {0, 112}, {1, 113}, {2, 114}, {3, 115}, {0, 116}, {1, 117}, {2, 118},
+		{3, 119}, {0, 120}, {1, 121}, {2, 122}, {3, 123}, {0, 124},
+	},
+	{
+		{0, -1}, {1, -1}, {2, -1}, {3, -1},
+		{1, 3}, {0, 4}, {0, 4}, {3, 6}, {3, 6}, {0, 8}, {2, 9}, {2, 5},
+		{2, 8}, {1, 12}, {2, 13}, {3, 14}, {0, 15},
+		{2, 9}, {1, 15}, {1, 11}, {2, 19}, {1, 20}, {2, 16}, {3, 22},
+		{3, 19}, {0, 24}, {1, 24}, {1, 25}, {3, 18}, {2, 26}, {1, 29}, {2, 30}, {3, 29}, {0, 32}, {3, 31}, {0, 27},
+		{0, 30}, {0, 30}, {1, 37}, {3, 38}, {2, 38}, {2, 34},
+		{3, 41},
+		{2, 34}, {3, 43}, {3, 43}, {1, 43}, {0, 46},
+		{2, 47}, {0, 48}, {0, 41}, {0, 41}, {1, 51}, {2, 52}, {0, 53}, {1, 54}, {1, 50},
+		{2, 56},
+		{3, 57}, {0, 58},
+		{1, 59}, {2, 60}, {3, 61}, {0, 62}, {1, 63}, {2, 64}, {3, 65}, {0, 66}, {1, 67}, {2, 68}, {3, 69}, {0, 70},
+		{1, 71}, {2, 72}, {3, 73}, {0, 74}, {1, 75}, {2, 76}, {3, 77}, {0, 78}, {1, 79}, {2, 80}, {3, 81}, {0, 82},
+		{1, 83}, {2, 84}, {3, 85}, {0, 86}, {1, 87}, {2, 88},
 	},
 }
 
@@ -80,8 +101,8 @@ var shapeStragglerRound = [][2]int{
 	{0, 95}, {2, 96}, {4, 97}, {0, 95}, {2, 89}, {0, 98}, {2, 89}, {6, 102}, {0, 103}, {6, 102}, {2, 95}, {3, 105},
 }
 
-var shapeCorpus = map[string][][2]int{"long-election": shapeLongElections[0], "long-election-1": shapeLongElections[1], "long-election-2": shapeLongElections[2], "straggler-round": shapeStragglerRound}
-var shapeCreators = map[string]int{"long-election": 4, "long-election-1": 4, "long-election-2": 4, "straggler-round": 7}
+var shapeCorpus = map[string][][2]int{"long-election": shapeLongElections[0], "long-election-1": shapeLongElections[1], "long-election-2": shapeLongElections[2], "long-election-3": shapeLongElections[3], "straggler-round": shapeStragglerRound}
+var shapeCreators = map[string]int{"long-election": 4, "long-election-1": 4, "long-election-2": 4, "long-election-3": 4, "straggler-round": 7}
 
 func genDagFromShape(rng *rand.Rand, seed int64, shape [][2]int, n int) *Dag {
 	return genDagFromShapePerm(rng, seed, shape, n, rng.Perm(n))
